@@ -22,6 +22,8 @@ func runC03(c *Ctx) {
 	// replying to every request "in any chunking" presupposes that parsing does not depend on chunking
 	ruleReaderUses(c, "R03.f", "R03.f")
 	ruleBulkFrame(c, "R03.f")
+	ruleNoRetryAfterParseError(c, "R03.f")
+	ruleSerializerTotal(c, "R03.g")
 }
 
 // ruleLoopProgress: A4 over all loops of the framework packages and the example store.
